@@ -135,19 +135,23 @@ def clip_blocks(blocks, a, b):
 def frames_for(blocks, strand, start_frame=0, shift_at=None):
     """CDSFrame names per block (ascending block order, as the library stores them).
 
-    A block's frame is the number of bases already consumed of the current codon at the block's 5' end
-    (`CDSFrame`): start_frame at the 5'-most block, then (frame + block length) mod 3 going 5'->3'.
-    `shift_at` = index (in 5'->3' order) of a block whose frame is advanced by one (programmed frameshift)."""
+    Mirrors the convention of `CDSInterval.construct_frames_from_location`: the 5'-most block carries
+    `start_frame` (that many bases precede the first complete codon); every later block (going 5'->3') carries
+    (bases of the CDS before it - start_frame) mod 3.
+    `shift_at` = index (in 5'->3' order, > 0) of a block whose frame is advanced by one (programmed frameshift)."""
     order = list(range(len(blocks)))
     if strand == "MINUS":
         order.reverse()
     frames = [None] * len(blocks)
-    f = start_frame
+    consumed = -start_frame
     for j, i in enumerate(order):
-        if shift_at is not None and j == shift_at and j > 0:
-            f = (f + 1) % 3
-        frames[i] = FRAME_NAMES[f]
-        f = (f + (blocks[i][1] - blocks[i][0])) % 3
+        if j == 0:
+            frames[i] = FRAME_NAMES[start_frame]
+        else:
+            if shift_at is not None and j == shift_at:
+                consumed += 1
+            frames[i] = FRAME_NAMES[consumed % 3]
+        consumed += blocks[i][1] - blocks[i][0]
     return frames
 
 
@@ -344,7 +348,7 @@ def make_parent(kind, seqname="chr1", genome_len=120, chunk=None):
     if kind == "none":
         return None
     if kind == "chrom":
-        return seq_to_parent(genome(genome_len), seqname)
+        return seq_to_parent(genome(genome_len), seq_id=seqname)
     if kind == "chunk":
         cs, ce = chunk
         return seq_chunk_to_parent(genome(max(genome_len, ce))[cs:ce], seqname, cs, ce)
